@@ -74,7 +74,15 @@ def _cases(draw, tier):
         return {'kind': 'lp', 'inst': inst, 'opts': opts, 'salt': salt,
                 'choices': draw(strategies.choice_lists), 'mode': 'eb'}
     prior = draw(strategies.siblings(inst)) if pct(draw) < 15 else None
-    return {'kind': 'checker', 'inst': inst, 'prior': prior}
+    case = {'kind': 'checker', 'inst': inst, 'prior': prior}
+    if pct(draw) < 30:
+        # the Model has been through a solve (any options, -pc or not, no -stab needed) before
+        # the checker is asked: what a solve leaves on the Model must not change the answers
+        case['presolve'] = draw(strategies.option_sets(inst, min_crit=0, max_crit=2, twopl=True,
+                                                       pc=draw(st.booleans())))
+        case['salt'] = salt
+        case['choices'] = draw(strategies.choice_lists)
+    return case
 
 
 def strategy(tier):
@@ -171,10 +179,23 @@ def run_case(case):
     text = refmodel.render(inst)
     path = solverio.write_instance(text)
     argv = ['-f', path, '-na', str(inst['na']), '-twopl']
-    model = solverio.make_solver(argv).model
+    labels = set(['kind=' + case['kind']])
+    if case.get('presolve'):
+        from .. import refbackend
+        sv = solverio.make_solver(strategies.build_argv(case['presolve'], path, inst['na']))
+        try:
+            with refbackend.Backend('eb', case.get('choices') or (), salt=case.get('salt', 0),
+                                    keep_sets=False):
+                call_repo('solve()', sv.solve, msg=False, timeLimit=None, threads=None,
+                          write=False)
+            labels.add('model_after_solve' + ('_pc' if case['presolve']['pc'] else ''))
+        except Violation:
+            labels.add('presolve_failed')      # not this property's statement
+        model = sv.model
+    else:
+        model = solverio.make_solver(argv).model
     o = refmodel.Oracle(inst, True)
     nstable = nunstable = 0
-    labels = set(['kind=' + case['kind']])
     I = o.I
     for M in _assignments(case, o):
         arg = []
